@@ -415,12 +415,12 @@ func (p *Parser) parseBuffer(buf []byte, last bool) error {
 					break
 				}
 				p.mode = fracMap
-				p.num.Frac = p.num.Frac*10 + uint64(b-'0')
-				p.num.Div *= 10.0
 				if BigLimit <= p.num.Div {
-					p.num.FillBig()
+					p.num.AddFrac(b)
 					break
 				}
+				p.num.Frac = p.num.Frac*10 + uint64(b-'0')
+				p.num.Div *= 10.0
 			}
 			off += i
 			if digitMap[b] == numDigit {
